@@ -36,6 +36,39 @@ def run(ctx):
     stage(ctx, ["header", 1, 8], "FactsTrace", "header", "header")
     stage(ctx, ["cgr", s, 300 if big else 90, 1500], "FactsTrace", "cgr", "cgr")
     stage(ctx, ["batch", s], "FactsTrace", "batch", "orec")
+    # bit-exact agreement of the binding with the Rust core on the same records (CGR coordinates and oligo vectors before
+    # rounding): both sides print the f64 bit patterns, the check hashes them, the specification demands equality
+    import hashlib, struct, sys
+    ev = []
+    for tag, extra in (("dirty", []), ("clean", ["clean"])):
+        fb = ctx.path("bits_%s.fa" % tag)
+        vlib.kvh(["gen", "fasta", s + 11, 40 if big else 14, 400, fb] + extra)
+        for size in (1, 3, 1000):
+            pyo = ctx.path("bits_py.ndjson")
+            p = fc.pydriver(ctx, ["bits", fb, size, 4], pyo)
+            if p.returncode != 0:
+                ctx.violation("python_bits", {"exit": p.returncode}, {"stderr": p.stderr.decode(errors="replace")[-1500:]})
+                continue
+            rs = vlib.kvh(["trace", "bits", fb, size, 4]).stdout.decode().splitlines()
+            core = {}
+            for line in rs:
+                e = json.loads(line)
+                key = (e["what"], e.get("k"), e.get("norm"), e["i"])
+                if e["bits"] == "error":
+                    core[key] = "error"
+                else:
+                    raw = b"".join(struct.pack("<Q", int(e["bits"][j:j + 16], 16)) for j in range(0, len(e["bits"]), 16))
+                    core[key] = hashlib.sha256(raw).hexdigest()[:16]
+            for line in open(pyo):
+                e = json.loads(line)
+                key = (e["what"], e.get("k"), e.get("norm"), e["i"])
+                ev.append({"ev": "eq", "what": "python = core, bit patterns: %s %s" % (tag, list(key)), "size": size, "a": e["d"], "b": core.get(key, "missing")})
+    bt = ctx.path("py_bits.ndjson")
+    with open(bt, "w") as f:
+        for e in ev:
+            f.write(json.dumps(e) + "\n")
+        f.write('{"ev":"eof"}\n')
+    vlib.validate_trace(ctx, "FactsTrace", bt, "python = core bit-exactly (CGR, oligo vectors k=1..4)", "eq")
     ctx.evaluations = ctx.traces
     ctx.nontrivial = ctx.traces
     ctx.exhaustive = False
